@@ -871,7 +871,7 @@ def fam_staleboot(rng, cfgs=(CFG_B, CFG_D)):
     return out
 
 
-def fam_overloaded(rng, cfg=CFG_A, ms=14000):
+def fam_overloaded(rng, cfg=CFG_A, ms=25000):
     """C01/C12: bitcoind answers one RPC with a bare HTTP 503 (no verdict about the transaction) while a breach is being
     handled: the submission must be retried, never treated as a rejection."""
     out = []
